@@ -4,5 +4,6 @@ import NflowsModel.Properties.C16D
 import NflowsModel.Properties.C16M
 import NflowsModel.Properties.C16L
 import NflowsModel.Properties.C16O
+import NflowsModel.Properties.C16F
 
 #audit_namespace Properties.C16
